@@ -1,10 +1,5 @@
-// C17 (round 2) — rare overloads / instantiations, sizes far from the usual, execution contexts.
+// C17 (round 2) — sizes far from the usual, execution contexts.
 //
-//  overloads : every way of naming the argument (string literal, const char*, char*, std::string; size_t,
-//              int, long, unsigned short, unsigned char positions) x with/without default x defaulted/explicit
-//              format, for integer and floating-point targets; absent arguments with boundary defaults for all
-//              fourteen integer and three floating-point targets; present-but-empty texts (--x, --x=, -x, "")
-//              through every getter; get_multi on every list of <= 3 values; constructor forms.
 //  sizes     : token counts 0..65536 (positionals, one repeated option, distinct options, one flag group), long
 //              values and tokens through all four constructors.
 //  ctx       : typed reads, absent reads, assert_none_unused and construction inside a catch handler, in a
@@ -15,451 +10,10 @@
 
 using namespace c17;
 
-namespace {
-
-const std::string KI = "call-forms:get<integer>";
-const std::string KF = "call-forms:get<float>";
-
-template <class T, class Call>
-bool int_form(vf::Run& r, const char* form, const std::string& text, IntFormat f, Call&& call) {
-  T got = 0;
-  std::string what;
-  r.poison_errno();
-  std::string oc = vf::outcome([&] { got = call(); }, &what);
-  r.counters["getter_calls"]++;
-  RefNum ref = ref_numeral(text, f);
-  auto ctx = [&] { return vf::fmt("%s with T=%s fmt=%s on text ", form, iname<T>(), fmt_name(f)) + short_show(text) + " (reference: " + ref_num_str(ref) + ")"; };
-  return judge_int<T>(r, KI, ctx, ref, oc, got, 1, what) != nullptr;
-}
-template <class T, class Call>
-bool float_form(vf::Run& r, const char* form, const std::string& text, Call&& call) {
-  T got = 0;
-  std::string what;
-  r.poison_errno();
-  std::string oc = vf::outcome([&] { got = call(); }, &what);
-  r.counters["getter_calls"]++;
-  RefFloat ref = ref_float(text);
-  auto ctx = [&] { return vf::fmt("%s with T=%s on text ", form, fname<T>()) + short_show(text) + " (reference: " + ref.why + ")"; };
-  return judge_float<T>(r, KF, ctx, ref, oc, got, 1, what) != nullptr;
-}
-
-// every call form for one integer target
-template <class T>
-bool int_forms(vf::Run& r, const std::string& text, IntFormat f) {
-  Arguments a(std::vector<std::string>{"--x=" + text, "--other=1"});
-  bool can_pos = text.empty() || text[0] != '-';
-  std::optional<Arguments> p;
-  if (can_pos) p.emplace(std::vector<std::string>{text, "other"});
-  const char* cp = "x";
-  char buf[2] = {'x', 0};
-  char* ncp = buf;
-  std::string s = "x";
-  const std::string& cs = s;
-  bool ok = true;
-  ok &= int_form<T>(r, "get<T>(\"x\" literal, fmt)", text, f, [&] { return a.get<T>("x", f); });
-  ok &= int_form<T>(r, "get<T>(const char*, fmt)", text, f, [&] { return a.get<T>(cp, f); });
-  ok &= int_form<T>(r, "get<T>(char*, fmt)", text, f, [&] { return a.get<T>(ncp, f); });
-  ok &= int_form<T>(r, "get<T>(std::string, fmt)", text, f, [&] { return a.get<T>(s, f); });
-  ok &= int_form<T>(r, "get<T>(const std::string&, fmt)", text, f, [&] { return a.get<T>(cs, f); });
-  ok &= int_form<T>(r, "get<T>(std::string&&, fmt)", text, f, [&] { return a.get<T>(std::string("x"), f); });
-  ok &= int_form<T>(r, "get<T>(\"x\" literal, default, fmt)", text, f, [&] { return a.get<T>("x", (T)77, f); });
-  ok &= int_form<T>(r, "get<T>(const char*, default, fmt)", text, f, [&] { return a.get<T>(cp, (T)77, f); });
-  ok &= int_form<T>(r, "get<T>(char*, default, fmt)", text, f, [&] { return a.get<T>(ncp, (T)77, f); });
-  ok &= int_form<T>(r, "get<T>(std::string, default, fmt)", text, f, [&] { return a.get<T>(s, (T)77, f); });
-  ok &= int_form<T>(r, "get_multi<T>(\"x\" literal, fmt)[0]", text, f, [&] { return a.get_multi<T>("x", f).at(0); });
-  ok &= int_form<T>(r, "get_multi<T>(std::string, fmt)[0]", text, f, [&] { return a.get_multi<T>(s, f).at(0); });
-  if (f == IntFormat::DEFAULT) {
-    ok &= int_form<T>(r, "get<T>(\"x\" literal) with the format defaulted", text, f, [&] { return a.get<T>("x"); });
-    ok &= int_form<T>(r, "get<T>(std::string) with the format defaulted", text, f, [&] { return a.get<T>(s); });
-    ok &= int_form<T>(r, "get<T>(\"x\" literal, default) with the format defaulted", text, f, [&] { return a.get<T>("x", (T)77); });
-    ok &= int_form<T>(r, "get<T>(const char*, default) with the format defaulted", text, f, [&] { return a.get<T>(cp, (T)77); });
-    ok &= int_form<T>(r, "get_multi<T>(\"x\" literal)[0] with the format defaulted", text, f, [&] { return a.get_multi<T>("x").at(0); });
-  }
-  if (can_pos) {
-    ok &= int_form<T>(r, "get<T>(size_t 0, fmt)", text, f, [&] { return p->get<T>((size_t)0, f); });
-    ok &= int_form<T>(r, "get<T>(int 0, fmt)", text, f, [&] { return p->get<T>(0, f); });
-    ok &= int_form<T>(r, "get<T>(long 0, fmt)", text, f, [&] { return p->get<T>(0L, f); });
-    ok &= int_form<T>(r, "get<T>(unsigned short 0, fmt)", text, f, [&] { return p->get<T>((unsigned short)0, f); });
-    ok &= int_form<T>(r, "get<T>(unsigned char 0, fmt)", text, f, [&] { return p->get<T>((unsigned char)0, f); });
-    ok &= int_form<T>(r, "get<T>(size_t 0, default, fmt)", text, f, [&] { return p->get<T>((size_t)0, (T)77, f); });
-    ok &= int_form<T>(r, "get<T>(int 0, default, fmt)", text, f, [&] { return p->get<T>(0, (T)77, f); });
-    if (f == IntFormat::DEFAULT) {
-      ok &= int_form<T>(r, "get<T>(size_t 0) with the format defaulted", text, f, [&] { return p->get<T>((size_t)0); });
-      ok &= int_form<T>(r, "get<T>(int 0) with the format defaulted", text, f, [&] { return p->get<T>(0); });
-      ok &= int_form<T>(r, "get<T>(size_t 0, default) with the format defaulted", text, f, [&] { return p->get<T>((size_t)0, (T)77); });
-      ok &= int_form<T>(r, "get<T>(int 0, default) with the format defaulted", text, f, [&] { return p->get<T>(0, (T)77); });
-    }
-  }
-  return ok;
-}
-
-template <class T>
-bool float_forms(vf::Run& r, const std::string& text) {
-  Arguments a(std::vector<std::string>{"--x=" + text, "--other=1"});
-  bool can_pos = text.empty() || text[0] != '-';
-  std::optional<Arguments> p;
-  if (can_pos) p.emplace(std::vector<std::string>{text, "other"});
-  const char* cp = "x";
-  std::string s = "x";
-  bool ok = true;
-  ok &= float_form<T>(r, "get<T>(\"x\" literal)", text, [&] { return a.get<T>("x"); });
-  ok &= float_form<T>(r, "get<T>(const char*)", text, [&] { return a.get<T>(cp); });
-  ok &= float_form<T>(r, "get<T>(std::string)", text, [&] { return a.get<T>(s); });
-  ok &= float_form<T>(r, "get<T>(\"x\" literal, std::nullopt)", text, [&] { return a.get<T>("x", std::nullopt); });
-  ok &= float_form<T>(r, "get<T>(\"x\" literal, default value)", text, [&] { return a.get<T>("x", (T)9.25); });
-  ok &= float_form<T>(r, "get<T>(const char*, optional(default))", text, [&] { return a.get<T>(cp, std::optional<T>((T)9.25)); });
-  ok &= float_form<T>(r, "get<T>(std::string, default value)", text, [&] { return a.get<T>(s, (T)9.25); });
-  ok &= float_form<T>(r, "get<T>(std::string, optional holding NaN)", text, [&] { return a.get<T>(s, std::optional<T>(std::numeric_limits<T>::quiet_NaN())); });
-  ok &= float_form<T>(r, "get_multi<T>(\"x\" literal)[0]", text, [&] { return a.get_multi<T>("x").at(0); });
-  ok &= float_form<T>(r, "get_multi<T>(std::string)[0]", text, [&] { return a.get_multi<T>(s).at(0); });
-  if (can_pos) {
-    ok &= float_form<T>(r, "get<T>(size_t 0)", text, [&] { return p->get<T>((size_t)0); });
-    ok &= float_form<T>(r, "get<T>(int 0)", text, [&] { return p->get<T>(0); });
-    ok &= float_form<T>(r, "get<T>(unsigned char 0)", text, [&] { return p->get<T>((unsigned char)0); });
-    ok &= float_form<T>(r, "get<T>(size_t 0, std::nullopt)", text, [&] { return p->get<T>((size_t)0, std::nullopt); });
-    ok &= float_form<T>(r, "get<T>(size_t 0, default value)", text, [&] { return p->get<T>((size_t)0, (T)9.25); });
-    ok &= float_form<T>(r, "get<T>(int 0, default value)", text, [&] { return p->get<T>(0, (T)9.25); });
-  }
-  return ok;
-}
-
-// absent arguments: out_of_range, or exactly the supplied default
-template <class T>
-bool absent_int(vf::Run& r, Arguments& a, const std::vector<std::string>& tokens) {
-  typedef std::numeric_limits<T> L;
-  bool ok = true;
-  auto ctx = [&](const char* call) { return "Arguments(" + list_str(tokens) + "): " + call + vf::fmt(" with T=%s", iname<T>()); };
-  const T DEFAULTS[] = {(T)0, (T)1, (T)77, L::max(), L::min(), (T)(L::max() - 1), (T)(L::min() + 1), (T)-1, (T)(L::max() / 2 + 1)};
-  for (IntFormat f : FORMATS) {
-    for (T d : DEFAULTS) {
-      T g1 = 0, g2 = 0, g3 = 0;
-      r.poison_errno();
-      std::string oc1 = vf::outcome([&] { g1 = a.get<T>("q", d, f); });
-      std::string oc2 = vf::outcome([&] { g2 = a.get<T>((size_t)9, d, f); });
-      std::string oc3 = vf::outcome([&] { g3 = a.get<T>(std::string("q"), d); });
-      r.counters["getter_calls"] += 3;
-      if (oc1 != "ok" || g1 != d) { ok = false; r.fail("absent:get<integer>(name, default)", [&] { return ctx("get<T>(\"q\", default, fmt)") + " default " + s128((i128)d) + " -> " + oc1 + " " + s128((i128)g1); }); }
-      if (oc2 != "ok" || g2 != d) { ok = false; r.fail("absent:get<integer>(position, default)", [&] { return ctx("get<T>(9, default, fmt)") + " default " + s128((i128)d) + " -> " + oc2 + " " + s128((i128)g2); }); }
-      if (oc3 != "ok" || g3 != d) { ok = false; r.fail("absent:get<integer>(name, default)", [&] { return ctx("get<T>(std::string \"q\", default)") + " default " + s128((i128)d) + " -> " + oc3 + " " + s128((i128)g3); }); }
-    }
-    r.poison_errno();
-    std::string oc1 = vf::outcome([&] { a.get<T>("q", f); });
-    std::string oc2 = vf::outcome([&] { a.get<T>((size_t)9, f); });
-    std::vector<T> multi{(T)1};
-    std::string oc3 = vf::outcome([&] { multi = a.get_multi<T>("q", f); });
-    r.counters["getter_calls"] += 3;
-    if (oc1 != "out_of_range") { ok = false; r.fail("absent:get<integer>(name)", [&] { return ctx("get<T>(\"q\", fmt)") + " -> " + oc1 + ", expected out_of_range"; }); }
-    if (oc2 != "out_of_range") { ok = false; r.fail("absent:get<integer>(position)", [&] { return ctx("get<T>(9, fmt)") + " -> " + oc2 + ", expected out_of_range"; }); }
-    if (!(oc3 == "out_of_range" || (oc3 == "ok" && multi.empty()))) { ok = false; r.fail("absent:get_multi", [&] { return ctx("get_multi<T>(\"q\", fmt)") + " -> " + oc3 + vf::fmt(" with %zu values", multi.size()); }); }
-  }
-  return ok;
-}
-template <class T>
-bool same_float(T a, T b) {
-  if (std::isnan(a) || std::isnan(b)) return std::isnan(a) && std::isnan(b);
-  return a == b && std::signbit(a) == std::signbit(b);
-}
-template <class T>
-bool absent_float(vf::Run& r, Arguments& a, const std::vector<std::string>& tokens) {
-  typedef std::numeric_limits<T> L;
-  bool ok = true;
-  auto ctx = [&](const char* call) { return "Arguments(" + list_str(tokens) + "): " + call + vf::fmt(" with T=%s", fname<T>()); };
-  const T DEFAULTS[] = {(T)0, -(T)0, (T)1, (T)-2.5, L::max(), L::lowest(), L::min(), L::denorm_min(), L::infinity(), -L::infinity(), L::quiet_NaN(), L::epsilon()};
-  for (T d : DEFAULTS) {
-    T g1 = 7, g2 = 7, g3 = 7;
-    r.poison_errno();
-    std::string oc1 = vf::outcome([&] { g1 = a.get<T>("q", d); });
-    std::string oc2 = vf::outcome([&] { g2 = a.get<T>((size_t)9, std::optional<T>(d)); });
-    std::string oc3 = vf::outcome([&] { g3 = a.get<T>(std::string("q"), std::optional<T>(d)); });
-    r.counters["getter_calls"] += 3;
-    if (oc1 != "ok" || !same_float(g1, d)) { ok = false; r.fail("absent:get<float>(name, default)", [&] { return ctx("get<T>(\"q\", default)") + vf::fmt(" default %.17g -> ", (double)d) + oc1 + vf::fmt(" %.17g", (double)g1); }); }
-    if (oc2 != "ok" || !same_float(g2, d)) { ok = false; r.fail("absent:get<float>(position, default)", [&] { return ctx("get<T>(9, default)") + vf::fmt(" default %.17g -> ", (double)d) + oc2 + vf::fmt(" %.17g", (double)g2); }); }
-    if (oc3 != "ok" || !same_float(g3, d)) { ok = false; r.fail("absent:get<float>(name, default)", [&] { return ctx("get<T>(std::string \"q\", default)") + vf::fmt(" default %.17g -> ", (double)d) + oc3 + vf::fmt(" %.17g", (double)g3); }); }
-  }
-  r.poison_errno();
-  std::string oc1 = vf::outcome([&] { a.get<T>("q"); });
-  std::string oc2 = vf::outcome([&] { a.get<T>((size_t)9); });
-  std::string oc4 = vf::outcome([&] { a.get<T>("q", std::nullopt); });
-  std::string oc5 = vf::outcome([&] { a.get<T>((size_t)9, std::optional<T>()); });
-  std::vector<T> multi{(T)1};
-  std::string oc3 = vf::outcome([&] { multi = a.get_multi<T>("q"); });
-  r.counters["getter_calls"] += 5;
-  if (oc1 != "out_of_range" || oc4 != "out_of_range") { ok = false; r.fail("absent:get<float>(name)", [&] { return ctx("get<T>(\"q\") / get<T>(\"q\", nullopt)") + " -> " + oc1 + " / " + oc4 + ", expected out_of_range"; }); }
-  if (oc2 != "out_of_range" || oc5 != "out_of_range") { ok = false; r.fail("absent:get<float>(position)", [&] { return ctx("get<T>(9) / get<T>(9, nullopt)") + " -> " + oc2 + " / " + oc5 + ", expected out_of_range"; }); }
-  if (!(oc3 == "out_of_range" || (oc3 == "ok" && multi.empty()))) { ok = false; r.fail("absent:get_multi", [&] { return ctx("get_multi<T>(\"q\")") + " -> " + oc3 + vf::fmt(" with %zu values", multi.size()); }); }
-  return ok;
-}
-
-// get_multi on a list of values
-template <class T>
-bool multi_int(vf::Run& r, const std::vector<std::string>& vals, IntFormat f) {
-  std::vector<std::string> tokens = {"p"};
-  for (auto& v : vals) tokens.push_back("--x=" + v);
-  tokens.push_back("--y=1");
-  Arguments a(tokens);
-  std::vector<T> got;
-  std::string what;
-  r.poison_errno();
-  std::string oc = vf::outcome([&] { got = a.get_multi<T>("x", f); }, &what);
-  r.counters["getter_calls"]++;
-  bool any_bad = false, any_dc = false;
-  std::vector<T> want;
-  for (auto& v : vals) {
-    uint64_t bits = 0;
-    RefNum ref = ref_numeral(v, f);
-    Expect e = expectation<T>(ref, &bits);
-    if (e == E_DONTCARE || ref.plus) any_dc = true;
-    else if (e == E_INVALID) any_bad = true;
-    else want.push_back((T)bits);
-  }
-  if (any_dc) return true;
-  auto ctx = [&] { return vf::fmt("get_multi<%s>(\"x\", %s) on values ", iname<T>(), fmt_name(f)) + list_str(vals); };
-  if (any_bad) {
-    if (oc != "invalid_argument") { r.fail("get_multi:list-with-a-rejected-value", [&] { return ctx() + " -> " + oc + vf::fmt(" (%zu values), expected invalid_argument", got.size()); }); return false; }
-    return true;
-  }
-  if (oc != "ok" || got != want) {
-    r.fail("get_multi:wrong-values", [&] { std::string s; for (T g : got) s += s128((i128)g) + ","; return ctx() + " -> " + oc + " [" + s + "] (" + what + ")"; });
-    return false;
-  }
-  // everything of x was read: after also reading p and y nothing is left over
-  a.get<std::string>((size_t)0);
-  a.get<std::string>("y");
-  std::string oc2 = vf::outcome([&] { a.assert_none_unused(); });
-  if (oc2 != "ok") { r.fail("get_multi:leaves-values-unread", [&] { return ctx() + " succeeded, p and y were read, but assert_none_unused() -> " + oc2; }); return false; }
-  return true;
-}
-template <class T>
-bool multi_float(vf::Run& r, const std::vector<std::string>& vals) {
-  std::vector<std::string> tokens = {"p"};
-  for (auto& v : vals) tokens.push_back("--x=" + v);
-  tokens.push_back("--y=1");
-  Arguments a(tokens);
-  std::vector<T> got;
-  r.poison_errno();
-  std::string oc = vf::outcome([&] { got = a.get_multi<T>("x"); });
-  r.counters["getter_calls"]++;
-  bool any_bad = false, any_dc = false;
-  std::vector<T> want;
-  for (auto& v : vals) {
-    RefFloat ref = ref_float(v);
-    if (ref.cls == DONTCARE) any_dc = true;
-    else if (ref.cls == INVALID) any_bad = true;
-    else want.push_back((T)ref.value);
-  }
-  if (any_dc) return true;
-  auto ctx = [&] { return vf::fmt("get_multi<%s>(\"x\") on values ", fname<T>()) + list_str(vals); };
-  if (any_bad) {
-    if (oc != "invalid_argument") { r.fail("get_multi:list-with-a-rejected-value", [&] { return ctx() + " -> " + oc + vf::fmt(" (%zu values), expected invalid_argument", got.size()); }); return false; }
-    return true;
-  }
-  if (oc != "ok" || got != want) {
-    r.fail("get_multi:wrong-values", [&] { std::string s; for (T g : got) s += vf::fmt("%.17g,", (double)g); return ctx() + " -> " + oc + " [" + s + "]"; });
-    return false;
-  }
-  a.get<std::string>((size_t)0);
-  a.get<std::string>("y");
-  std::string oc2 = vf::outcome([&] { a.assert_none_unused(); });
-  if (oc2 != "ok") { r.fail("get_multi:leaves-values-unread", [&] { return ctx() + " succeeded, p and y were read, but assert_none_unused() -> " + oc2; }); return false; }
-  return true;
-}
-
-}  // namespace
-
-VF_SECTION(overloads, 8, 8, 120) {
-  r.note("call forms");
-  // (a) every way of writing the call
-  static const char* TEXTS[] = {"10", "-1", "", "300", "1.5", "x", "0x7f", "08", "70000", "-129", "4294967296", "1e3", "7 ", "-"};
-  for (const char* t : TEXTS) {
-    for (IntFormat f : FORMATS) {
-      if (!r.take()) continue;
-      std::string text = t;
-      if (r.wants_desc()) r.desc("every call form of the integer getters (identifier as literal / const char* / char* / std::string / size_t / int / long / unsigned short / unsigned char; with and without default; format explicit and defaulted) on text " + vf::show(text) + " fmt " + fmt_name(f));
-      r.nontriv();
-      bool ok = true;
-      ok &= int_forms<int8_t>(r, text, f);
-      ok &= int_forms<uint8_t>(r, text, f);
-      ok &= int_forms<int16_t>(r, text, f);
-      ok &= int_forms<uint16_t>(r, text, f);
-      ok &= int_forms<int32_t>(r, text, f);
-      ok &= int_forms<uint32_t>(r, text, f);
-      ok &= int_forms<int64_t>(r, text, f);
-      ok &= int_forms<uint64_t>(r, text, f);
-      ok &= int_forms<long long>(r, text, f);
-      ok &= int_forms<unsigned long long>(r, text, f);
-      ok &= int_forms<char>(r, text, f);
-      ok &= int_forms<wchar_t>(r, text, f);
-      ok &= int_forms<char16_t>(r, text, f);
-      ok &= int_forms<char32_t>(r, text, f);
-      if (ok) r.ok("integer call forms agree with the reference");
-    }
-    if (!r.take()) continue;
-    std::string text = t;
-    if (r.wants_desc()) r.desc("every call form of the floating-point getters on text " + vf::show(text));
-    r.nontriv();
-    bool ok = float_forms<float>(r, text);
-    ok &= float_forms<double>(r, text);
-    ok &= float_forms<long double>(r, text);
-    if (ok) r.ok("floating-point call forms agree with the reference");
-  }
-  // (b) absent arguments and boundary defaults
-  static const std::vector<std::vector<std::string>> OBJS = {{}, {"p0", "--x=12"}, {"--Q=1", "-Q", "--qq=2", "a", "b", "c", "d", "e", "f", "g", "h", "i"}};
-  for (auto& tokens : OBJS) {
-    if (!r.take()) continue;
-    if (r.wants_desc()) r.desc("Arguments(" + list_str(tokens) + "): name q and position 9 are absent; every getter of every target type with boundary defaults");
-    r.nontriv();
-    Arguments a(tokens);
-    RefArgs before = snapshot(a);
-    bool ok = true;
-    ok &= absent_int<int8_t>(r, a, tokens);
-    ok &= absent_int<uint8_t>(r, a, tokens);
-    ok &= absent_int<int16_t>(r, a, tokens);
-    ok &= absent_int<uint16_t>(r, a, tokens);
-    ok &= absent_int<int32_t>(r, a, tokens);
-    ok &= absent_int<uint32_t>(r, a, tokens);
-    ok &= absent_int<int64_t>(r, a, tokens);
-    ok &= absent_int<uint64_t>(r, a, tokens);
-    ok &= absent_int<long long>(r, a, tokens);
-    ok &= absent_int<unsigned long long>(r, a, tokens);
-    ok &= absent_int<char>(r, a, tokens);
-    ok &= absent_int<wchar_t>(r, a, tokens);
-    ok &= absent_int<char16_t>(r, a, tokens);
-    ok &= absent_int<char32_t>(r, a, tokens);
-    ok &= absent_float<float>(r, a, tokens);
-    ok &= absent_float<double>(r, a, tokens);
-    ok &= absent_float<long double>(r, a, tokens);
-    {
-      std::string s1 = "?", s2 = "?";
-      std::string oc1 = vf::outcome([&] { s1 = a.get<std::string>("q"); });
-      std::string oc1b = vf::outcome([&] { s1 += a.get<std::string>(std::string("q"), false); });
-      std::string oc2 = vf::outcome([&] { a.get<std::string>("q", true); });
-      std::string oc3 = vf::outcome([&] { a.get<std::string>((size_t)9); });
-      std::string oc3b = vf::outcome([&] { a.get<std::string>((size_t)9, true); });
-      std::string oc4 = vf::outcome([&] { s2 = a.get<std::string>((size_t)9, false); });
-      bool b = true;
-      std::string oc5 = vf::outcome([&] { b = a.get<bool>("q"); });
-      std::vector<std::string> ms{"?"};
-      std::string oc6 = vf::outcome([&] { ms = a.get_multi<std::string>("q"); });
-      if (oc1 != "ok" || oc1b != "ok" || !s1.empty() || oc2 != "out_of_range" || oc3 != "out_of_range" || oc3b != "out_of_range" || oc4 != "ok" || !s2.empty() || oc5 != "ok" || b || !(oc6 == "out_of_range" || (oc6 == "ok" && ms.empty()))) {
-        ok = false;
-        r.fail("absent:string-and-bool-getters", [&] { return "Arguments(" + list_str(tokens) + vf::fmt("): get<string>(\"q\") -> %s/%s %s; (\"q\",true) -> %s; (9) -> %s; (9,true) -> %s; (9,false) -> %s %s; get<bool>(\"q\") -> %s %d; get_multi<string>(\"q\") -> %s (%zu)", oc1.c_str(), oc1b.c_str(), vf::show(s1).c_str(), oc2.c_str(), oc3.c_str(), oc3b.c_str(), oc4.c_str(), vf::show(s2).c_str(), oc5.c_str(), (int)b, oc6.c_str(), ms.size()); });
-      }
-    }
-    // asking for absent arguments stores nothing and reads nothing
-    if (!(snapshot(a) == before)) { ok = false; r.fail("absent:query-changed-stored-arguments", [&] { return "Arguments(" + list_str(tokens) + ") after queries for the absent name q and position 9 holds " + ref_str(snapshot(a)); }); }
-    std::string oc = vf::outcome([&] { a.assert_none_unused(); });
-    if (oc != (tokens.empty() ? "ok" : "invalid_argument")) { ok = false; r.fail("absent:assert_none_unused", [&] { return "Arguments(" + list_str(tokens) + ") after queries for absent arguments only: assert_none_unused() -> " + oc; }); }
-    if (ok) r.ok("absent: out_of_range / default / empty");
-  }
-  // (c) present but empty: a typed getter, with or without default, has a text to judge and must reject it
-  static const std::vector<std::vector<std::string>> EMPTIES = {{"--x"}, {"--x="}, {"-x"}, {"-yx"}, {"--x", "p"}, {"", "--x"}};
-  for (auto& tokens : EMPTIES) for (IntFormat f : FORMATS) {
-    if (!r.take()) continue;
-    if (r.wants_desc()) r.desc("Arguments(" + list_str(tokens) + "): option x is present with empty text: every typed getter with/without default, fmt " + fmt_name(f));
-    r.nontriv();
-    bool ok = true;
-    auto one = [&](auto tag) {
-      typedef decltype(tag) T;
-      Arguments a(tokens);
-      RefNum ref = ref_numeral("", f);
-      for (int via = 0; via <= VIA_DEFAULT; via++) if (!int_read<T>(r, "present-but-empty:get<integer>", a, nullptr, "", ref, f, (Via)via)) ok = false;
-    };
-    one((int8_t)0); one((uint8_t)0); one((int16_t)0); one((uint16_t)0); one((int32_t)0); one((uint32_t)0); one((int64_t)0); one((uint64_t)0);
-    one((long long)0); one((unsigned long long)0); one((char)0); one((wchar_t)0); one((char16_t)0); one((char32_t)0);
-    auto onef = [&](auto tag) {
-      typedef decltype(tag) T;
-      Arguments a(tokens);
-      RefFloat ref = ref_float("");
-      for (int via = 0; via <= VIA_DEFAULT; via++) if (!float_read<T>(r, "present-but-empty:get<float>", a, nullptr, "", ref, via)) ok = false;
-    };
-    onef((float)0); onef((double)0); onef((long double)0);
-    {
-      Arguments a(tokens);
-      std::string s = "?";
-      bool b = false;
-      std::vector<std::string> ms;
-      std::string oc1 = vf::outcome([&] { s = a.get<std::string>("x", true); });
-      std::string oc2 = vf::outcome([&] { b = a.get<bool>("x"); });
-      std::string oc3 = vf::outcome([&] { ms = a.get_multi<std::string>("x"); });
-      if (oc1 != "ok" || !s.empty() || oc2 != "ok" || !b || oc3 != "ok" || ms != std::vector<std::string>{""}) { ok = false; r.fail("present-but-empty:string-and-bool-getters", [&] { return "Arguments(" + list_str(tokens) + "): get<string>(\"x\", true) -> " + oc1 + " " + vf::show(s) + "; get<bool>(\"x\") -> " + oc2 + (b ? " true" : " false") + "; get_multi<string>(\"x\") -> " + oc3 + " " + list_str(ms); }); }
-    }
-    if (ok) r.ok("present but empty: typed getters reject, string/bool getters see it");
-  }
-  // (d) get_multi on every list of <= 3 values
-  static const char* VALS[] = {"1", "", "x", "300", "-1", "0x10", "1.5"};
-  const uint32_t NV = sizeof(VALS) / sizeof(VALS[0]);
-  for (size_t len = 0; len <= 3; len++) {
-    for (vf::Odometer o(std::vector<uint32_t>(len, NV)); !o.done; o.step()) {
-      if (!r.take()) continue;
-      std::vector<std::string> vals;
-      for (size_t i = 0; i < len; i++) vals.push_back(VALS[o.d[len - 1 - i]]);
-      if (r.wants_desc()) r.desc("--x supplied with values " + list_str(vals) + ": get_multi for nine targets and all formats");
-      r.nontriv();
-      bool ok = true;
-      for (IntFormat f : FORMATS) {
-        ok &= multi_int<int8_t>(r, vals, f);
-        ok &= multi_int<uint16_t>(r, vals, f);
-        ok &= multi_int<int32_t>(r, vals, f);
-        ok &= multi_int<int64_t>(r, vals, f);
-        ok &= multi_int<unsigned long long>(r, vals, f);
-        ok &= multi_int<char>(r, vals, f);
-      }
-      ok &= multi_float<float>(r, vals);
-      ok &= multi_float<double>(r, vals);
-      ok &= multi_float<long double>(r, vals);
-      if (ok) r.ok(len == 0 ? "option not supplied" : "get_multi: all values in order, or invalid_argument");
-    }
-  }
-  // (e) constructor forms
-  {
-    static const char* ARGV3[] = {"a", "--n=1", "-xy"};
-    for (size_t n = 0; n <= 3; n++) {
-      if (!r.take()) continue;
-      if (r.wants_desc()) r.desc(vf::fmt("Arguments(argv, %zu) on a three-element argv (const char* const* and char**), Arguments(nullptr, 0)", n));
-      r.nontriv();
-      std::vector<std::string> tokens(ARGV3, ARGV3 + n);
-      RefArgs want = ref_classify(tokens);
-      bool ok = true;
-      Arguments a(ARGV3, n);
-      if (!(snapshot(a) == want)) { ok = false; r.fail("constructors:argv-count", [&] { return vf::fmt("Arguments(argv, %zu) stored ", n) + ref_str(snapshot(a)) + ", reference " + ref_str(want); }); }
-      char s0[] = "a", s1[] = "--n=1", s2[] = "-xy";
-      char* margv[] = {s0, s1, s2, nullptr};
-      char** mp = margv;
-      Arguments b(mp, n);
-      if (!(snapshot(b) == want)) { ok = false; r.fail("constructors:argv-count", [&] { return vf::fmt("Arguments(char** argv, %zu) stored ", n) + ref_str(snapshot(b)); }); }
-      if (strcmp(s0, "a") || strcmp(s1, "--n=1") || strcmp(s2, "-xy")) { ok = false; r.fail("constructors:argv-modified", [&] { return std::string("Arguments(char** argv, n) changed the caller's strings"); }); }
-      if (n == 0) {
-        Arguments c((const char* const*)nullptr, 0);
-        if (!(snapshot(c) == want)) { ok = false; r.fail("constructors:argv-count", [&] { return "Arguments(nullptr, 0) stored " + ref_str(snapshot(c)); }); }
-      }
-      if (ok) r.ok("argv constructor respects the count");
-    }
-    if (r.take()) {
-      if (r.wants_desc()) r.desc("Arguments(\"literal\"), Arguments(std::string&&), Arguments(const std::string&) on the same command line; the caller's vector is left alone by the copying constructor");
-      r.nontriv();
-      bool ok = true;
-      std::vector<std::string> tokens = {"a", "--n=1", "-xy", "b c"};
-      RefArgs want = ref_classify(tokens);
-      Arguments a("a --n=1 -xy 'b c'");
-      std::string line = "a --n=1 -xy 'b c'";
-      Arguments b(line);
-      Arguments c(std::string("a --n=1 -xy 'b c'"));
-      if (!(snapshot(a) == want) || !(snapshot(b) == want) || !(snapshot(c) == want)) { ok = false; r.fail("constructors:string-forms-differ", [&] { return "literal: " + ref_str(snapshot(a)) + "; lvalue: " + ref_str(snapshot(b)) + "; rvalue: " + ref_str(snapshot(c)) + "; reference " + ref_str(want); }); }
-      std::vector<std::string> copy = tokens;
-      const std::vector<std::string>& cref = copy;
-      Arguments d(cref);
-      if (copy != tokens || line != "a --n=1 -xy 'b c'") { ok = false; r.fail("constructors:argument-modified", [&] { return "Arguments(const vector&) / Arguments(const string&) changed the caller's object: " + list_str(copy) + " / " + vf::show(line); }); }
-      if (!(snapshot(d) == want)) { ok = false; r.fail("constructors:string-forms-differ", [&] { return "Arguments(const vector&) stored " + ref_str(snapshot(d)); }); }
-      if (ok) r.ok("constructor forms agree");
-    }
-  }
-  r.bound = "call forms: 14 texts x 4 formats x 14 integer targets x up to 28 ways of writing the call (identifier literal/const char*/char*/std::string lvalue, const&, rvalue; positions as size_t/int/long/unsigned short/unsigned char; default given or not; format explicit or defaulted; get_multi) and 3 floating-point targets x 16 ways (nullopt, value, optional, NaN default); absent name/position on 3 objects x 17 targets x 9-12 boundary defaults (min, max, -1, NaN, infinities, -0.0, denormal) x 4 formats; present-but-empty option (--x, --x=, -x, -yx) x 17 targets x {get, get_multi, get with default}; get_multi on every list of 0..3 values from {1, \"\", x, 300, -1, 0x10, 1.5} x 9 targets x 4 formats; Arguments(argv, 0..3), Arguments(nullptr, 0), char**, string literal / lvalue / rvalue";
-}
-
 // ---------------------------------------------------------------------------------------------------
 // sizes
 // ---------------------------------------------------------------------------------------------------
-VF_SECTION(sizes, 4, 4, 300) {
+VF_SECTION(sizes, 4, 4, 120) {
   r.note("sizes");
   std::vector<size_t> NS = {0, 1, 2, 3, 15, 16, 17, 255, 256, 257, 1000, 4096};
   if (r.thorough()) { NS.push_back(65535); NS.push_back(65536); NS.push_back(65537); }
@@ -600,11 +154,20 @@ VF_SECTION(ctx, 4, 4, 120) {
         bool ok = true;
         for (int via = 0; via < NVIA; via++) {
           if ((via == VIA_POSITIONAL || via == VIA_POS_DEFAULT) && !can_pos) continue;
-          run_ctx(cx, en, [&] { if (!int_read<int8_t>(r, "context:get<integer>", named, pos ? &*pos : nullptr, text, ref, f, (Via)via, false)) ok = false; });
-          run_ctx(cx, en, [&] { if (!int_read<uint16_t>(r, "context:get<integer>", named, pos ? &*pos : nullptr, text, ref, f, (Via)via, false)) ok = false; });
-          run_ctx(cx, en, [&] { if (!int_read<int32_t>(r, "context:get<integer>", named, pos ? &*pos : nullptr, text, ref, f, (Via)via, false)) ok = false; });
-          run_ctx(cx, en, [&] { if (!int_read<int64_t>(r, "context:get<integer>", named, pos ? &*pos : nullptr, text, ref, f, (Via)via, false)) ok = false; });
-          run_ctx(cx, en, [&] { if (!int_read<unsigned long long>(r, "context:get<integer>", named, pos ? &*pos : nullptr, text, ref, f, (Via)via, false)) ok = false; });
+          run_ctx(cx, en, [&] {
+            for (int ty = 0; ty < 5; ty++) {
+              errno = en;
+              const char* c = nullptr;
+              switch (ty) {
+                case 0: c = int_read<int8_t>(r, "context:get<integer>", named, pos ? &*pos : nullptr, text, ref, f, (Via)via, false); break;
+                case 1: c = int_read<uint16_t>(r, "context:get<integer>", named, pos ? &*pos : nullptr, text, ref, f, (Via)via, false); break;
+                case 2: c = int_read<int32_t>(r, "context:get<integer>", named, pos ? &*pos : nullptr, text, ref, f, (Via)via, false); break;
+                case 3: c = int_read<int64_t>(r, "context:get<integer>", named, pos ? &*pos : nullptr, text, ref, f, (Via)via, false); break;
+                case 4: c = int_read<unsigned long long>(r, "context:get<integer>", named, pos ? &*pos : nullptr, text, ref, f, (Via)via, false); break;
+              }
+              if (!c) ok = false;
+            }
+          });
         }
         if (ok) r.ok(std::string("integer reads: ") + cx_name[cx]);
       }
@@ -622,9 +185,18 @@ VF_SECTION(ctx, 4, 4, 120) {
         bool ok = true;
         for (int via = 0; via < NVIA; via++) {
           if ((via == VIA_POSITIONAL || via == VIA_POS_DEFAULT) && !can_pos) continue;
-          run_ctx(cx, en, [&] { if (!float_read<float>(r, "context:get<float>", named, pos ? &*pos : nullptr, text, ref, via, false)) ok = false; });
-          run_ctx(cx, en, [&] { if (!float_read<double>(r, "context:get<float>", named, pos ? &*pos : nullptr, text, ref, via, false)) ok = false; });
-          run_ctx(cx, en, [&] { if (!float_read<long double>(r, "context:get<float>", named, pos ? &*pos : nullptr, text, ref, via, false)) ok = false; });
+          run_ctx(cx, en, [&] {
+            for (int ty = 0; ty < 3; ty++) {
+              errno = en;
+              const char* c = nullptr;
+              switch (ty) {
+                case 0: c = float_read<float>(r, "context:get<float>", named, pos ? &*pos : nullptr, text, ref, via, false); break;
+                case 1: c = float_read<double>(r, "context:get<float>", named, pos ? &*pos : nullptr, text, ref, via, false); break;
+                case 2: c = float_read<long double>(r, "context:get<float>", named, pos ? &*pos : nullptr, text, ref, via, false); break;
+              }
+              if (!c) ok = false;
+            }
+          });
         }
         if (ok) r.ok(std::string("floating-point reads: ") + cx_name[cx]);
       }
